@@ -96,7 +96,7 @@ var c08Faults = []string{
 	"probe_query_events_subscribed", "probe_count_with_requests_in_flight",
 }
 
-var c08LazyFaults = []string{"probe_cancel_consumer_not_reading", "probe_lazy_consumer"}
+var c08LazyFaults = []string{"probe_cancel_consumer_not_reading", "probe_lazy_consumer", "probe_cancel_with_provider_undelivered"}
 
 func init() {
 	sim.Register(&sim.Scenario{Prop: "C08", Name: "find-providers", Weight: 4, Run: func(s *sim.Sim) {
@@ -184,8 +184,9 @@ type c08World struct {
 	racyStop bool
 	// lazy: the consumer takes an item only when the scheduler lets it (kind
 	// "consume"), so the search can be cancelled while it is blocked handing
-	// over a provider. Not used with the dual client: there two sub-searches
-	// blocked on their channels would make the merging select racy.
+	// over a provider. With the dual client only in worlds in which one of the
+	// two networks names providers (c08_dual.go): two sub-searches blocked on
+	// their channels would make the merging select racy.
 	lazy       bool
 	tablePeers int
 	// ownTimeout: the client was built with a time-out of its own for the whole
@@ -194,6 +195,10 @@ type c08World struct {
 	ownTimeout time.Duration
 	evCh       <-chan *dht.LookupEvent
 	ctxWrap    func(context.Context) context.Context
+	// dual client: LAN responders, and the sides on which a peer is stored as a
+	// local provider (bit 1 WAN, bit 2 LAN); used by probes only
+	lanPeer map[peer.ID]bool
+	srcBits map[peer.ID]int
 
 	// observations
 	ops         opSet
@@ -714,6 +719,9 @@ func (w *c08World) run() bool {
 	}
 	idle := 0
 	for !w.op.Done {
+		if w.racyStop && w.lazy && w.reachedStep() != 0 {
+			break // see drainLazyAfterCount
+		}
 		if !s.Step() {
 			break
 		}
@@ -780,6 +788,7 @@ func (w *c08World) run() bool {
 	if s.Failed() {
 		return true
 	}
+	w.drainLazyAfterCount()
 	if !w.op.Done && s.Steps > s.MaxSteps {
 		s.Summary["budget"] = "step budget exhausted"
 		s.Count("step_budget_exhausted")
@@ -789,6 +798,33 @@ func (w *c08World) run() bool {
 		w.afterCount()
 	}
 	return true
+}
+
+// drainLazyAfterCount: dual client with a consumer that reads only when the
+// scheduler lets it. The merging goroutine cancels the sub-searches in the
+// step in which the consumer took the count-th peer; the consumer itself is
+// parked again by then and has not seen the close yet. From there on the run
+// is drained without draws and traces (racyStop): the consumer is let read
+// until it has seen the close. A channel that is still open after that and
+// after 30 s of virtual time is reported by rule not-closed.
+func (w *c08World) drainLazyAfterCount() {
+	s := w.s
+	if !w.racyStop || !w.lazy || w.op.Done || w.reachedStep() == 0 || s.Steps > s.MaxSteps {
+		return
+	}
+	for i := 0; i < 8 && !w.op.Done; i++ {
+		ps := s.ParkedKind("consume")
+		if len(ps) == 0 {
+			break
+		}
+		s.Steps++
+		s.Release(ps[0], nil)
+		s.Quiesce()
+	}
+	if !w.op.Done {
+		s.Sleep(30 * time.Second)
+	}
+	w.drainEvents()
 }
 
 // afterCount runs after the channel was closed with the count reached and
@@ -1127,6 +1163,31 @@ func (w *c08World) check() {
 		}
 		if w.cancelLazy {
 			s.Count("probe_cancel_consumer_not_reading")
+			// ... and a provider the search already knew of (stored locally, or
+			// named in a reply delivered before the cancellation) had not reached
+			// the consumer, with the count not yet used up: the search (or the
+			// merging goroutine of the dual client) was holding it for the
+			// consumer when the context was cancelled.
+			before := map[peer.ID]bool{}
+			for _, y := range w.yields {
+				if y.Step < w.cancelStep {
+					before[y.ID] = true
+				}
+			}
+			pending := false
+			for id := range w.local {
+				pending = pending || !before[id]
+			}
+			for _, d := range replies {
+				if d.Step < w.cancelStep {
+					for _, n := range d.Provs {
+						pending = pending || !before[n.ID]
+					}
+				}
+			}
+			if pending && (c.Count == 0 || len(before) < c.Count) {
+				s.Count("probe_cancel_with_provider_undelivered")
+			}
 		}
 		if w.closeStep >= w.cancelStep {
 			s.Count("probe_closed_after_cancel")
